@@ -41,7 +41,7 @@ def _strip(sh):
 
 
 def run_version(args):
-    version, variants, repo = args
+    version, variants, repo, pairs = args
     import parso
     from parso.parser import ParserSyntaxError
     g = GO.spec_grammar(repo, version)
@@ -63,7 +63,10 @@ def run_version(args):
         if start not in g.nfa:
             continue
         import itertools
-        for arc, tree in itertools.chain(dv.sentences([start]), dv.sentences_in_sites([start])):
+        gens = [dv.sentences([start]), dv.sentences_in_sites([start])]
+        if pairs:
+            gens.append(dv.sentences_pairs([start]))
+        for arc, tree in itertools.chain(*gens):
             for var in range(variants):
                 n_sent += 1
                 text, labels, leaves = GO.render(tree, var)
@@ -115,13 +118,14 @@ def main():
     ap = argparse.ArgumentParser()
     ap.add_argument('--versions', default='3.6,3.8,3.10,3.12,3.14')
     ap.add_argument('--variants', type=int, default=1)
+    ap.add_argument('--pairs', action='store_true')
     ap.add_argument('--out', required=True)
     ap.add_argument('--repo', default=os.environ.get('PARSO_REPO', '/repo'))
     a = ap.parse_args()
     t0 = time.time()
     vs = a.versions.split(',')
     with mp.Pool(min(16, len(vs))) as pool:
-        res = pool.map(run_version, [(v, a.variants, a.repo) for v in vs])
+        res = pool.map(run_version, [(v, a.variants, a.repo, a.pairs) for v in vs])
     fails = []
     for r in res:
         fails += r.pop('fails')
@@ -131,7 +135,7 @@ def main():
                scope=dict(versions=vs, variants=a.variants),
                rule='per version: one derivation per automaton arc of every rule reachable from file_input and eval_input '
                     '(shortest completion), and one per (arc, rule that refers to this rule) so that every arc is also taken '
-                    'inside every context that uses the rule; %d spelling/layout variants; sentences whose rendering the tokenizer does not '
+                    'inside every context that uses the rule' + (', and one per pair of consecutive arcs of a rule' if a.pairs else '') + '; %d spelling/layout variants; sentences whose rendering the tokenizer does not '
                     'reproduce token for token are skipped (counted); distinct_nontrivial = distinct (start, rule, state, '
                     'label) arcs exercised by an accepted sentence' % a.variants)
     with open(a.out, 'w') as f:
